@@ -49,7 +49,7 @@ PROPS = {
         "kani": ["zipcrypto", "aes_ctr"],
         "technique": "Verus stream-transformer contracts (state is a function of the bytes consumed) under an I/O model that quantifies over every short-read/short-write schedule",
         "level_text": "Deductive proof that each reader layer advances its state by exactly the count the inner reader returned, whatever that count is: Crc32Reader hashes exactly the returned bytes; ZipCryptoReaderValid decrypts exactly the n bytes read and leaves the keys where n bytes put them (the repaired short-read defect, pinned by a named clause); AesReaderValid advances data_remaining, the HMAC view and the CTR key-stream offset by exactly n, with chunk-independence lemmas for the key stream and for composed reads; after end-of-data further reads return Ok(0) without effect; the raw Take path passes the device bytes through unchanged. On the write side ZipCryptoWriter buffers exactly what it accepts and ZipWriterStats accounts exactly the slice it is given; header writers only use all-or-error primitives.",
-        "level_note": "compressors/decompressors assumed chunk-independent; ZipWriter::write accounts exactly the count the installed writer accepted (named clause); what is written through `ref_mut`'s `&mut dyn Write` is not tracked byte-for-byte (assumed contract, Verus has no unsizing cast) - MaybeEncrypted::write itself is proved to be the sink's own write; vstd's slice iterator specs are trusted for the iter_mut loops",
+        "level_note": "compressors/decompressors assumed chunk-independent; ZipWriter::write accounts exactly the count the installed writer accepted and hands exactly those bytes to the sink (stored), the encoder (compressed) or the ZipCrypto buffer (named clauses, through the verified dispatch model for `ref_mut`'s trait object); vstd's slice iterator specs are trusted for the iter_mut loops",
         "undecided": [],
     },
     "C15": {
@@ -89,7 +89,7 @@ PROPS = {
         "kani": [],
         "technique": "Verus representation invariant (zw_wf) required and re-established by every public writer operation: induction over call sequences of any length",
         "level_text": "Deductive proof by invariant: every public ZipWriter operation requires only the representation invariant and re-establishes it on every exit, so by induction no sequence of calls of any length panics (the unwraps on files.last_mut(), get_plain/unwrap's panic!, the unreachable!() in finish_file, the alignment assert and buffer[11] are all discharged). Misuse is an error by named postconditions: write with no file open, after a directory or symlink, or on a closed writer; end_extra_data without extra data; malformed, truncated, ZIP64 or reserved extra data (validate_extra_data is Ok iff a recursive APPNOTE predicate holds); unsupported method or a level outside the method's range (switch_to, all exits characterised); valid switches from a plain storer succeed. start_entry adds exactly one entry with the metadata of its options and restarts the accounting; finish_file leaves earlier entries and raw-copied metadata untouched.",
-        "level_note": "the experimental encryption option is covered by the same invariant only for start_file+write (start_file_with_extra_data / start_file_aligned require `encrypt_with is None`, as the property's quantifier does); `ref_mut` and write_all on the writer itself are assumed contracts (unsizing cast / std default method); 'archive contains exactly the entries whose creation succeeded' is proved per operation (entry list effects), not as one abstract-list lemma",
+        "level_note": "the experimental encryption option is covered by the same invariant only for start_file+write (start_file_with_extra_data / start_file_aligned require `encrypt_with is None`, as the property's quantifier does); `ref_mut` is an assumed contract (unsizing cast; the trait object is modelled as the enum it points into, with a verified dispatch model), write_all / write_u16 on the writer itself are verified transcriptions of the std loops; 'archive contains exactly the entries whose creation succeeded' is proved per operation (entry list effects), not as one abstract-list lemma",
         "undecided": ["abstract entry-list lemma over whole call sequences (per-operation effects on `files` are proved)"],
     },
     "C13": {
@@ -104,8 +104,8 @@ PROPS = {
         "units": ["U7b_append_copy", "U7_writer", "U7a_writer_leaves", "U8_entry_readers", "U8b_archive"],
         "kani": ["types"],
         "technique": "Verus contracts on raw_copy_file_rename and the raw reader path",
-        "level_text": "Deductive proof that a raw copy creates exactly one entry carrying the source's method, CRC-32, sizes, timestamp and permission bits (large_file iff a size exceeds 32 bits), leaves the writer on the stored path with writing_raw set so that the next close does NOT recompute CRC/sizes (finish_file clause), copies every remaining compressed byte of the source unless the source ends early, and leaves earlier entries untouched; the raw reader is the bounded Take over the device positioned at the data offset computed from the local header, bypassing crypto, decoder and CRC.",
-        "level_note": "std::io::copy and the trait-object path through ref_mut are assumed contracts (stated in terms of ZipWriter::write's proved contract); MaybeEncrypted::write on the stored path is proved to be the sink's own write",
+        "level_text": "Deductive proof that a raw copy creates exactly one entry carrying the source's name (or the new name), method, CRC-32, sizes, timestamp and permission bits (large_file iff a size exceeds 32 bits), leaves the writer on the stored path with writing_raw set so that the next close does NOT recompute CRC/sizes (finish_file clause), and that the bytes which follow the new local header on the sink are EXACTLY the remaining raw bytes of the source entry - its compressed size, or what is left of a truncated source - unchanged and in order, for every way the source splits its reads and the sink its writes; earlier entries are untouched and the accounting of the next entry restarts; the raw reader (get_raw_reader, real body) is the bounded Take over the device positioned at the data offset computed from the local header, bypassing crypto, decoder and CRC.",
+        "level_note": "std::io::copy and Write::write_all are not assumed: their std loops are transcribed (minus the retry on ErrorKind::Interrupted) and VERIFIED against ZipFileReader::read and ZipWriter::write's proved contracts (only the transcription is trusted); the `&mut dyn Write` of ref_mut is modelled as the enum it points into with a verified dispatch model (DESIGN.md 11.2); preconditions on the source entry: freshly opened (no decoding reader installed yet) over a usable device",
         "undecided": [],
     },
     "C17": {
@@ -113,7 +113,7 @@ PROPS = {
         "kani": [],
         "technique": "Verus contracts on start_file_aligned / extra-data calls with a proved arithmetic lemma for the padding formula",
         "level_text": "Deductive proof for every alignment 0..65535 and every preceding state that a successful start_file_aligned leaves the entry's data start at a multiple of the alignment (lemma (x + (a - x % a) % a) % a == 0; the in-code assert is an obligation), that extra data written through the writer is collected verbatim, validated (Ok iff well-formed, unreserved, non-ZIP64, within 65535 bytes), appended after the local header with the local extra-length field patched to (20 if large) + length - refused if that does not fit 16 bits -, that the central part stays in the entry and is emitted in the central header, and that the reader reports the data start computed from the local header's own name/extra lengths.",
-        "level_note": "write_all / write_u16 on the writer itself are assumed contracts over ZipWriter::write's proved contract; AtomicU64 is modelled as a plain cell on the writer side",
+        "level_note": "write_all / write_u16 on the writer itself are verified transcriptions of the std loops over ZipWriter::write's proved contract (only the two little-endian bytes of write_u16 are assumed); AtomicU64 is modelled as a plain cell on the writer side",
         "undecided": [],
     },
     "C10": {
